@@ -237,6 +237,65 @@ fn fix_trees(e: &Expr) -> Option<Expr> {
     }
 }
 
+/// the size rule: invariant text around the 64 KiB limit, split in different ways between
+/// repetitions, literals, nested repetitions, branches and variant siblings
+fn gen_size_expr(t: &mut Tape) -> Expr {
+    let rep = |body: Expr, n: usize| Tok::Rep { body, lo: n, hi: Some(n), spell: 0 };
+    let unit: Expr = match t.below(4) {
+        0 => vec![Tok::lit("a")],
+        1 => vec![Tok::lit("ab")],
+        2 => vec![Tok::lit("é")],
+        _ => vec![Tok::lit("a"), Tok::Sep, Tok::lit("b")],
+    };
+    let ulen: usize = unit.iter().map(|t| match t {
+        Tok::Lit { text, .. } => text.len(),
+        _ => 1,
+    }).sum();
+    let target: usize = t.pick(&[0xFFFFusize, 0x10000, 0x10001, 0x10004, 0xFFFC, 40000, 70000, 0x20000]);
+    let e: Expr = match t.below(8) {
+        0 => vec![rep(unit, target / ulen)],
+        1 => {
+            // a repetition just below the target plus literal text that completes it
+            let n = (target - 1) / ulen;
+            vec![rep(unit, n), Tok::lit(&"b".repeat(target - n * ulen))]
+        },
+        2 => {
+            let n = (target - 1) / ulen;
+            vec![Tok::lit(&"b".repeat(target - n * ulen)), rep(unit, n)]
+        },
+        3 => {
+            // two sibling repetitions that only reach the target together
+            let n1 = target / 2 / ulen;
+            vec![rep(unit, n1), rep(vec![Tok::lit("b")], target - n1 * ulen)]
+        },
+        4 => {
+            // nested repetitions
+            let inner = 1 + t.below(300);
+            vec![rep(vec![rep(unit, inner)], (target / (inner * ulen)).max(1))]
+        },
+        5 => {
+            // inside an alternative
+            let n = (target - 1) / ulen;
+            vec![Tok::Alt(vec![vec![Tok::lit("x")], vec![rep(unit, n), Tok::lit(&"b".repeat(target - n * ulen))]])]
+        },
+        6 => {
+            // beside a variant sibling: the whole is variant
+            let n = (target - 1) / ulen;
+            vec![rep(unit, n), Tok::lit(&"b".repeat(target - n * ulen)), Tok::Zom { lazy: false }]
+        },
+        _ => {
+            // separated components
+            let n = (target / 2 - 1) / ulen;
+            vec![rep(unit.clone(), n), Tok::Sep, rep(unit, (target - 1 - n * ulen) / ulen), Tok::lit("b")]
+        },
+    };
+    e
+}
+
+fn is_size_family(e: &Expr) -> bool {
+    any_tok(e, &|t, _| matches!(t, Tok::Rep { lo, .. } if *lo >= 100))
+}
+
 fn count_tree_leads(e: &Expr) -> usize {
     let mut n = 0;
     visit(e, 0, &mut |t, _| {
@@ -256,7 +315,7 @@ impl Property for C06 {
         "rule-agnostic nested ASTs in the documented syntax (about half violate a rule) plus, per \
          generated E, the context variants E+`y{e,f}`, `{e,f}y`+E and `{E,q}`, plus a \
          bounded-exhaustive enumeration of all shapes up to a size bound over {a, /, *, **-forms, \
-         {..}, {..,..}, <..:bounds>}; one evaluation = one expression judged by the reference rule \
+         {..}, {..,..}, <..:bounds>}, plus a size family (invariant text around the 64 KiB limit split between repetitions, literals, nested repetitions, branches, components and variant siblings); one evaluation = one expression judged by the reference rule \
          checker vs Glob::new; non-trivial = >= 2 branch tokens or a branch nested in a branch, and \
          a definite reference verdict; distinct by expression text"
             .into()
@@ -275,9 +334,12 @@ impl Property for C06 {
         }
     }
     fn required_counters(&self) -> Vec<&'static str> {
-        vec!["ref_must_build", "ref_must_fail", "ref_unspecified", "context_variants", "enumerated"]
+        vec!["ref_must_build", "ref_must_fail", "ref_unspecified", "context_variants", "enumerated", "size_family", "size_family_must_fail", "size_family_must_build"]
     }
     fn decode(&self, t: &mut Tape) -> Case {
+        if t.chance(5) {
+            return Case { expr: gen_size_expr(t) };
+        }
         let mut cfg = GenCfg::default();
         cfg.violate = 50;
         cfg.max_depth = 4;
@@ -307,6 +369,14 @@ impl Property for C06 {
         shrink_expr(&c.expr).into_iter().map(|e| Case { expr: normalize(&e, true) }).collect()
     }
     fn check(&self, case: &Case, st: &mut Stats) -> CheckResult {
+        if is_size_family(&case.expr) {
+            st.count("size_family");
+            match crate::refrules::size_verdict(&strip_flags(&case.expr)) {
+                Some(true) => st.count("size_family_must_fail"),
+                Some(false) => st.count("size_family_must_build"),
+                None => st.count("size_family_undecided"),
+            }
+        }
         check_one(&case.expr, st, "")?;
         // context-freeness, metamorphically: unrelated siblings must not change the verdict
         let ef = Tok::Alt(vec![vec![Tok::lit("e")], vec![Tok::lit("f")]]);
